@@ -137,7 +137,8 @@ def to_yaml(d):
 
 
 def make_source(cfg, layout, carrier, wd, n):
-    """-> source object for Config(...)"""
+    """-> source object for Config(...); the file carriers rewrite one of two paths per kind (a configuration file that is
+    edited and loaded again within one process must give the edited configuration)"""
     import numpy as np
     import xarray as xr
     textual = carrier not in ("dict", "odict")
@@ -174,12 +175,12 @@ def make_source(cfg, layout, carrier, wd, n):
     if carrier == "json_io":
         return io.StringIO(json.dumps(d))
     if carrier in ("yaml_path_str", "yaml_path"):
-        p = os.path.join(wd, "c%d.yaml" % n)
+        p = os.path.join(wd, "c%d.yaml" % (n % 2))
         with open(p, "w") as f:
             f.write(to_yaml(d))
         return p if carrier == "yaml_path_str" else Path(p)
     if carrier in ("json_path_str", "json_path"):
-        p = os.path.join(wd, "c%d.json" % n)
+        p = os.path.join(wd, "c%d.json" % (n % 2))
         with open(p, "w") as f:
             json.dump(d, f)
         return p if carrier == "json_path_str" else Path(p)
@@ -190,7 +191,7 @@ def make_source(cfg, layout, carrier, wd, n):
         ds = xr.Dataset({"a": (("time",), np.arange(3.0))}, attrs={"ioos_qc_config": json.dumps(d)})
         if carrier == "xr_global":
             return ds
-        p = os.path.join(wd, "c%d.nc" % n)
+        p = os.path.join(wd, "c%d.nc" % (n % 2))
         ds.to_netcdf(p, engine="scipy", format="NETCDF3_64BIT")
         return p
     if carrier == "xr_vars":
